@@ -8,7 +8,7 @@
    model the witnesses meet the statement; no general proof of it exists (it needs the inversion of the tokenizer on the
    formatter's output).  Proved: *)
 Require Import Bebop.front.Tok Bebop.front.Parse Bebop.front.Fmt Bebop.front.FmtFacts Bebop.front.FmtSafe.
-Require Import Bebop.front.LexInv Bebop.front.ParseInv Bebop.front.FmtInv Bebop.front.MsgInv.
+Require Import Bebop.front.LexInv Bebop.front.ParseInv Bebop.front.FmtInv Bebop.front.MsgInv Bebop.front.GenInv Bebop.front.Items.
 From Coq Require Import List.
 
 Definition C16_partial_statement : Prop :=
@@ -54,3 +54,17 @@ Proof.
   exists y. auto.
 Qed.
 Print Assumptions C16_records.
+
+(* and with enums, through the item framework (front/GenInv.v, front/Items.v): any sequence of struct, message and enum
+   definitions, every layout *)
+Definition C16_schema_statement : Prop :=
+  forall dl lay tail,
+    Forall sdefn_ok dl -> map snd lay = schema_lexemes dl -> Forall (fun p => hws (fst p)) lay -> sep_ok lay -> hws tail ->
+    exists y, (exists s, format (render lay tail) = POk y s) /\
+              (exists s, read_file y false = POk (schema_file dl) s) /\ (exists s, read_file (render lay tail) false = POk (schema_file dl) s).
+Theorem C16_schema : C16_schema_statement.
+Proof.
+  intros dl lay tail H1 H2 H3 H4 H5. destruct (schema_laws dl lay tail H1 H2 H3 H4 H5) as (y & Hf & _ & _ & Hr & Hr0).
+  exists y. auto.
+Qed.
+Print Assumptions C16_schema.
